@@ -263,12 +263,20 @@ def run(ctx):
                         for bb2, t2 in cm.local_calls(cb, p, exact="vocoder::excitation::Excitation::start"):
                             a = t2["args"][1]
                             al = a.get("place", {}).get("local")
-                            # one copy step: `_89 = copy p`
-                            for dbb, didx, ditem in cb.defs().get(al, []):
-                                if didx != "term" and ditem["rv"]["k"] == "use" and ditem["rv"]["op"].get("k") in ("copy", "move") \
-                                        and not ditem["rv"]["op"]["place"]["proj"]:
-                                    al = ditem["rv"]["op"]["place"]["local"]
-                            starts.append(al == zero_local and cb is vs)
+                            # copy chain back to the variable: `_89 = copy p`, `p = move _267` (merged
+                            # result of an if-expression or of an inlined helper), ..
+                            chain = {al}
+                            for _ in range(6):
+                                nxt = None
+                                for dbb, didx, ditem in cb.defs().get(al, []):
+                                    if didx != "term" and ditem["rv"]["k"] == "use" and ditem["rv"]["op"].get("k") in ("copy", "move") \
+                                            and not ditem["rv"]["op"]["place"]["proj"]:
+                                        nxt = ditem["rv"]["op"]["place"]["local"]
+                                if nxt is None or nxt in chain:
+                                    break
+                                al = nxt
+                                chain.add(al)
+                            starts.append(zero_local in chain and cb is vs)
                     if starts and all(starts):
                         ctx.ok("C11-R5", "lf0 == NODATA => p = 0, and p is the pitch passed to every Excitation::start (%d calls)" % len(starts), cm.loc_of(t["span"]))
                     else:
